@@ -13,6 +13,7 @@ class Ctx:
         self._resolvers: dict[str, Resolver] = {}
         self._flows: dict = {}
         self._parents: dict = {}
+        self._tmodels: dict = {}
 
     @cached_property
     def cg(self) -> CallGraph:
@@ -38,6 +39,14 @@ class Ctx:
         if fa is None:
             fa = self._flows[fn.qname] = FlowAnalysis(fn.node)
         return fa
+
+    def tmodel(self, cls_q: str):
+        from .hooks import TransformerModel
+
+        tm = self._tmodels.get(cls_q)
+        if tm is None:
+            tm = self._tmodels[cls_q] = TransformerModel(self, cls_q)
+        return tm
 
     def parents(self, fn: FuncInfo) -> dict[int, ast.AST]:
         pm = self._parents.get(fn.qname)
